@@ -325,7 +325,7 @@ def add_requests(ctx, res, add):
 
 THEOREMS = ["BemppVerif.C15." + t for t in (
     "blocked_matvec_eq_dense", "blocked_matmat_eq_dense", "blocked_matmat_is_columnwise_matvec",
-    "generalized_matmat_eq_dense", "blocked_ctor_dims_sound")]
+    "generalized_matmat_eq_dense", "blocked_ctor_dims_sound", "blocked_matvec_eq_dense_of_index")]
 LEAN_MODULE = "BemppVerif.Props.C15Blocked"
 
 
